@@ -24,7 +24,8 @@ COMPONENTS = {"real": ["ECAgent.Core._MetaAgent (per-class _components / _tag, a
               "stub": ["agent classes are created by the harness with type(); component classes are harness-defined"]}
 PROBES = ["explicit_tag_zero_with_nonzero_default", "tag_set_on_Agent_itself", "class_component_on_environment_class",
           "reject_duplicate_attach", "reject_detach_absent", "instance_component_attached", "subclass_instantiated_after_tag",
-          "parent_instantiated_after_child_tag", "child_instantiated_after_parent_tag", "depth_3_chain", "sibling_isolation_checked", "class_created_mid_history"]
+          "parent_instantiated_after_child_tag", "child_instantiated_after_parent_tag", "depth_3_chain", "sibling_isolation_checked", "class_created_mid_history", "class_cloned_from_namespace",
+          "shared_namespace_dict"]
 TECHNIQUE = "deterministic simulation: seeded class-level attach/detach/tag histories over generated hierarchies, pristine forked process per history, per-class reference"
 LEVEL_TEXT = ("Seeded search over class hierarchies and class-level histories; after every operation, for every class in the "
               "hierarchy including Agent and Environment, class components, length, membership and default tag must equal a "
@@ -54,14 +55,15 @@ BASES = {"Agent": Agent, "Environment": Environment, "SpaceWorld": SpaceWorld}
 def generate(rng, tier):
     classes = []      # {"name", "base": index into classes or root name}
     roots = ["Agent", "Agent", "Agent", "Environment"] + (["SpaceWorld"] if rng.random() < 0.3 else [])
-    for i in range(rng.randint(3, 8)):
+    for i in range(rng.randint(3, 11 if tier == "thorough" else 8)):
         if classes and rng.random() < 0.6:
             cand = [j for j, c in enumerate(classes) if c["depth"] < 3]
             if cand:
                 j = rng.choice(cand)
-                classes.append({"name": f"K{i}", "base": j, "depth": classes[j]["depth"] + 1})
+                classes.append({"name": f"K{i}", "base": j, "depth": classes[j]["depth"] + 1,
+                                "ns": rng.choice(["fresh", "fresh", "shared"])})
                 continue
-        classes.append({"name": f"K{i}", "base": rng.choice(roots), "depth": 1})
+        classes.append({"name": f"K{i}", "base": rng.choice(roots), "depth": 1, "ns": rng.choice(["fresh", "fresh", "shared"])})
     n = len(classes) + 2      # + Agent, Environment themselves
     ops = []
     for _ in range(rng.randint(5, 70 if tier == "thorough" else 50)):
@@ -87,7 +89,7 @@ def generate(rng, tier):
         elif r < 0.88:
             ops.append({"op": "new", "c": c, "tag": rng.choice([None, None, None, 0, 0, 3]), "comp": rng.choice([None, None, 0, 1, 2])})
         elif r < 0.94:
-            ops.append({"op": "subclass", "c": c})
+            ops.append({"op": "subclass", "c": c, "how": rng.choice(["fresh", "shared", "clone", "clone"])})
         else:
             ops.append({"op": "observe"})
     return {"classes": classes, "ops": ops}
@@ -95,6 +97,7 @@ def generate(rng, tier):
 
 def execute(sc, ctx):
     m = Model()
+    shared_ns = {"species": "generic"}      # ONE namespace dict reused by a class factory for several classes
     built = []       # (class object, parent index or None, kind)
     for i, c in enumerate(sc["classes"]):
         base = c["base"]
@@ -102,10 +105,14 @@ def execute(sc, ctx):
             if base >= len(built):
                 base = "Agent"
             else:
-                built.append((type(c["name"], (built[base][0],), {}), base, built[base][2]))
+                built.append((type(c["name"], (built[base][0],), shared_ns if c.get("ns") == "shared" else {}), base,
+                              built[base][2]))
                 continue
         root = BASES.get(base, Agent)
-        built.append((type(c["name"], (root,), {}), None, base if base in BASES else "Agent"))
+        built.append((type(c["name"], (root,), shared_ns if c.get("ns") == "shared" else {}), None,
+                      base if base in BASES else "Agent"))
+    if any(c.get("ns") == "shared" for c in sc["classes"]):
+        ctx.probe("shared_namespace_dict")
     idx_agent, idx_env = len(built), len(built) + 1
     built.append((Agent, None, "Agent"))
     built.append((Environment, None, "Environment"))
@@ -193,8 +200,19 @@ def execute(sc, ctx):
         elif kind == "subclass":
             if len(built) >= 14:
                 continue
-            sub = ctx.expect_ok("create-subclass", type, f"L{len(built)}", (cls,), {})
-            built.append((sub, i, rootkind))
+            how = op.get("how", "fresh")
+            if how == "clone" and i not in (idx_agent, idx_env):
+                # a class rebuilt from another class's namespace (what slot-adding class decorators do): a new sibling
+                # that must start with no class components and the default tag NONE
+                ns = dict(cls.__dict__)
+                ns.pop("__dict__", None)
+                ns.pop("__weakref__", None)
+                sub = ctx.expect_ok("clone-class", type, f"L{len(built)}", cls.__bases__, ns)
+                built.append((sub, parent, rootkind))
+                ctx.probe("class_cloned_from_namespace")
+            else:
+                sub = ctx.expect_ok("create-subclass", type, f"L{len(built)}", (cls,), shared_ns if how == "shared" else {})
+                built.append((sub, i, rootkind))
             comps.append({})
             tags.append(0)          # a new class starts with the default tag NONE and no class components
             ctx.probe("class_created_mid_history")
